@@ -3,7 +3,9 @@
 package relayctl
 
 import (
+	"crypto/rand"
 	"fmt"
+	"io"
 	"net/netip"
 	"sort"
 	"strings"
@@ -84,6 +86,35 @@ func (e *exec) collect(i int, pendingBefore []string) (outs []string, fwd string
 		}
 	}
 	return outs, fwd
+}
+
+// relaysDump is hm.Relays by pointer: `x:<index>:<owner local index>:<owner in hostmap>:<index in owner's relay state>`.
+func relaysDump(nd *relaynet.Node) string {
+	var t []string
+	for _, x := range nd.RelayIndexes() {
+		t = append(t, fmt.Sprintf("x:%d:%d:%s:%s", x.Index, x.Owner, hlib.B(x.OwnerLive), hlib.B(x.InOwnerState)))
+	}
+	if len(t) == 0 {
+		return "-"
+	}
+	return strings.Join(t, " ")
+}
+
+// killReader lands a teardown at the next 4-byte read (AddRelay's index draw, made right after it took the
+// hostmap lock): the state AddRelay then sees is the one of a teardown that completed between the caller's
+// hostinfo lookup and AddRelay's Lock().
+type killReader struct {
+	inner io.Reader
+	fire  func()
+	fired bool
+}
+
+func (k *killReader) Read(p []byte) (int, error) {
+	if len(p) == 4 && !k.fired {
+		k.fired = true
+		k.fire()
+	}
+	return k.inner.Read(p)
 }
 
 func optAddr(s string) *nebula.Addr {
@@ -254,6 +285,83 @@ func newExec(t *testing.T) func([]string) string {
 			A.MigrateRelayUsed(idxs[1], idxs[0])
 			outs, _ := e.collect(ia, pend)
 			return joinOuts(dump(A), append(outs, e.vias...))
+		case "relaysdump":
+			_, A := node(a[1])
+			return relaysDump(A)
+		case "batchclose":
+			// a sends CloseTunnel, then the control message, on its primary tunnel to b; b receives both in one
+			// receive batch (one rxContext, cache cleared at the end only)
+			_, A := node(a[1])
+			ib, B := node(a[2])
+			m := nebula.NebulaControl{
+				Type:                nebula.NebulaControl_MessageType(hlib.Atoi(a[3])),
+				InitiatorRelayIndex: uint32(hlib.Atou(a[4])),
+				ResponderRelayIndex: uint32(hlib.Atou(a[5])),
+				OldRelayFromAddr:    uint32(hlib.Atou(a[6])),
+				OldRelayToAddr:      uint32(hlib.Atou(a[7])),
+				RelayFromAddr:       optAddr(a[8]),
+				RelayToAddr:         optAddr(a[9]),
+			}
+			b, err := m.Marshal()
+			if err != nil {
+				panic(err)
+			}
+			idx := A.PrimaryIndex(B.Vpn)
+			if idx == 0 || !hostRemoteValid(A, idx) {
+				return "no-tunnel"
+			}
+			pend := B.State().Pending
+			e.net.Take()
+			A.SendCloseTunnel(idx)
+			A.SendMessageToIndex(header.Control, 0, idx, b)
+			var from []netip.AddrPort
+			var pkts [][]byte
+			for _, w := range e.net.Take() {
+				if w.To == B.Udp {
+					from = append(from, w.From)
+					pkts = append(pkts, w.Data)
+				}
+			}
+			if len(pkts) != 2 {
+				panic(fmt.Sprintf("harness: batchclose expected 2 datagrams, got %d", len(pkts)))
+			}
+			B.InjectBatch(from, pkts)
+			outs, _ := e.collect(ib, pend)
+			return joinOuts(dump(B), outs) + " | " + relaysDump(B)
+		case "smigrate":
+			ia, A := node(a[1])
+			_, B := node(a[2])
+			w := hlib.Atoi(a[3])
+			idxs := A.HostIndexes(B.Vpn)
+			if len(idxs) < 2 {
+				return "no-old-tunnel"
+			}
+			if migratable(A, idxs[1], idxs[0]) > 1 {
+				return "skipped-multi"
+			}
+			pend := A.State().Pending
+			e.net.Take()
+			A.MigrateRelayUsedStale(idxs[1], idxs[0], w == 1 || w == 2, w == 0 || w == 2)
+			outs, _ := e.collect(ia, pend)
+			return joinOuts(dump(A), append(outs, e.vias...)) + " | " + relaysDump(A)
+		case "sstart":
+			ia, A := node(a[1])
+			_, T := node(a[2])
+			_, R := node(a[3])
+			pend := A.State().Pending
+			e.net.Take()
+			victim := A.PrimaryIndex(R.Vpn)
+			inner := rand.Reader
+			k := &killReader{inner: inner, fire: func() { A.UnlockedDeleteIndex(victim) }}
+			if victim != 0 {
+				rand.Reader = k
+			}
+			func() {
+				defer func() { rand.Reader = inner }()
+				A.StartRelays(T.Vpn, []netip.Addr{R.Vpn}, []byte{0xff, 0xff, 0xff, 0xff})
+			}()
+			outs, _ := e.collect(ia, pend)
+			return joinOuts(dump(A), append(outs, e.vias...)) + " | " + relaysDump(A) + " | fired:" + hlib.B(k.fired)
 		case "fwd":
 			_, S := node(a[1])
 			ir, R := node(a[2])
@@ -346,8 +454,39 @@ func v4num(r *hlib.Rand, n int) uint32 {
 	return 0x0a000001 + uint32(r.Intn(n+1))
 }
 
+// stalePreamble: the three stale-pointer witnesses (a hostinfo that is no longer in the hostmap handed to
+// an entry point that allocates a relay index), each followed by a new tunnel and a fresh relay on it.
+var stalePreamble = []string{
+	// 1. CloseTunnel -> CreateRelayRequest in one receive batch, endpoint role (target is me, AddRelay(h stale))
+	"reset 100 3 2", "hs 0 1", "hs 1 2",
+	"batchclose 1 2 1 500 0 0 0 0a000001 0a000003", "relaysdump 2",
+	"hs 1 2", "ctl 1 2 1 501 0 0 0 0a000001 0a000003", "relaysdump 2", "down 2 1", "relaysdump 2",
+	// 1b. relay role: the forwarding branch registers on the live target, then AddRelay(h stale) for the requester
+	"reset 100 3 2", "hs 0 1", "hs 1 2",
+	"batchclose 0 1 1 500 0 0 0 0a000001 0a000003", "relaysdump 1", "deliver 0", "deliver 0",
+	"hs 0 1", "ctl 0 1 1 500 0 0 0 0a000001 0a000003", "relaysdump 1", "deliver 0", "deliver 0", "deliver 0",
+	// 1c. an existing record on the dead hostinfo: it is answered from the dead object, nothing is registered
+	"reset 100 3 2", "hs 0 1", "hs 1 2", "ctl 1 2 1 500 0 0 0 0a000001 0a000003",
+	"batchclose 1 2 1 500 0 0 0 0a000001 0a000003", "relaysdump 2", "deliver 0", "deliver 0",
+	// 2. migrateRelayUsed(old, new) with new torn down (0), old torn down (1), both (2)
+	"reset 100 3 2", "hs 0 1", "hs 1 2", "ctl 0 1 1 500 0 0 0 0a000001 0a000003", "deliver 0", "deliver 0", "deliver 0",
+	"fwd 0 1 105", "fwd 0 1 106", "fwd 0 1 107", "hs 0 1", "smigrate 1 0 0", "relaysdump 1",
+	"hs 0 1", "migrate 1 0", "relaysdump 1",
+	"reset 100 3 2", "hs 0 1", "hs 1 2", "ctl 0 1 1 500 0 0 0 0a000001 0a000003", "deliver 0", "deliver 0", "deliver 0",
+	"fwd 0 1 105", "fwd 0 1 106", "fwd 0 1 107", "hs 0 1", "smigrate 1 0 1", "relaysdump 1", "down 1 0", "relaysdump 1",
+	"reset 100 3 2", "hs 0 1", "hs 1 2", "ctl 0 1 1 500 0 0 0 0a000001 0a000003", "deliver 0", "deliver 0", "deliver 0",
+	"fwd 0 1 105", "fwd 0 1 106", "fwd 0 1 107", "hs 0 1", "smigrate 1 0 2", "relaysdump 1",
+	// 3. StartRelays: the relay's tunnel torn down between QueryVpnAddr and AddRelay
+	"reset 100 3 2", "hs 0 1", "hs 1 2", "sstart 0 2 1", "relaysdump 0", "hs 0 1", "start 0 2 1", "relaysdump 0",
+	"deliver 0", "deliver 0", "deliver 0", "sstart 0 2 1",
+}
+
 func gen(r *hlib.Rand, n int, tier, profile string, emit func(string, ...any)) {
 	ops := 0
+	for _, l := range stalePreamble {
+		emit("%s", l)
+		ops++
+	}
 	for ops < n {
 		nn := hlib.Pick(r, 3, 3, 3, 4, 4, 5)
 		base := uint32(hlib.Pick(r, 100, 100, 1000, 65000, 4000000000))
@@ -443,6 +582,68 @@ func gen(r *hlib.Rand, n int, tier, profile string, emit func(string, ...any)) {
 						g++
 					}
 					em("migrate %d %d", b, a)
+				}
+				continue
+			}
+			// stale hostinfo pointers handed to the entry points that allocate a relay index
+			if y := r.Intn(100); y < 13 {
+				switch {
+				case y < 6:
+					// CloseTunnel + CreateRelayRequest in one batch: endpoint role (target = receiver), relay role
+					// (target = a third node), lying / malformed variants; sometimes a response instead
+					from := node(a)
+					if r.Chance(1, 2) {
+						from = node(r.Intn(nn))
+					}
+					to := node(b)
+					if r.Chance(1, 2) {
+						to = node(r.Intn(nn))
+					}
+					if r.Chance(1, 10) {
+						to = addrTok(r, nn)
+					}
+					if r.Chance(1, 4) {
+						// negotiate first so that the dead hostinfo already holds a record
+						em("ctl %d %d 1 %d 0 0 0 %s %s", a, b, idxGuess(), from, to)
+						alloc += 2
+					}
+					if r.Chance(1, 8) {
+						em("batchclose %d %d 2 %d %d 0 0 %s %s", a, b, idxGuess(), idxGuess(), from, to)
+					} else {
+						em("batchclose %d %d 1 %d 0 0 0 %s %s", a, b, idxGuess(), from, to)
+					}
+					alloc += 2
+					tun[b][a] = false
+				case y < 10:
+					// used relays, re-handshake, then migration racing the teardown of new / old / both
+					g := idxGuess()
+					for d := r.Range(3, 8); d > 0; d-- {
+						em("fwd %d %d %d", a, b, g)
+						g++
+					}
+					hs(a, b)
+					em("smigrate %d %d %d", b, a, r.Intn(3))
+					alloc++
+					if r.Bool() {
+						em("smigrate %d %d %d", a, b, r.Intn(3))
+						alloc++
+					}
+				default:
+					t := r.Intn(nn)
+					em("sstart %d %d %d", a, t, b)
+					alloc++
+					tun[a][b] = false
+				}
+				// afterwards: nothing, or a new tunnel (and a fresh negotiation on it)
+				if r.Chance(1, 2) {
+					hs(a, b)
+					if r.Bool() {
+						em("ctl %d %d 1 %d 0 0 0 %s %s", a, b, idxGuess(), node(a), node(r.Intn(nn)))
+						alloc += 2
+					}
+				}
+				if r.Chance(1, 3) {
+					em("relaysdump %d", r.Intn(nn))
 				}
 				continue
 			}
